@@ -28,6 +28,8 @@ impl Choice {
 impl From<u8> for Choice {
     // subtle: `debug_assert!((input == 0u8) | (input == 1u8)); Choice(black_box(input))`
     // (a trait method cannot carry a `requires`; callers below show `input <= 1` at the call site)
+    open spec fn obeys_from_spec() -> bool { true }
+    open spec fn from_spec(input: u8) -> Choice { Choice(input) }
     fn from(input: u8) -> (r: Choice)
         ensures r.0 == input
     { Choice(input) }
@@ -53,17 +55,26 @@ pub trait ConstantTimeEq {
 }
 
 // ---- /repo glue
-//@@ fn src/const_choice.rs | impl From<ConstChoice> for Choice | from | body | props C06 C11
+// stub: the body is `Choice::from(choice.to_u8())`; `ConstChoice::to_u8` (l1_choice) carries `requires self.wf()`
+// and a trait method (`From::from`) cannot state a precondition, so the body cannot be checked against it.
+//@@ fn src/const_choice.rs | impl From<ConstChoice> for Choice | from | stub | props C06 C11
 impl From<ConstChoice> for Choice {
+#[verifier::external_body]
 fn from(choice: ConstChoice) -> (ret__: Self)
+//@+
+    ensures choice.wf() ==> ret__.wf() && ret__.t() == choice.t()
+//@-
 {
-        Choice::from(choice.to_u8())
-    }
+    unimplemented!()
+}
 }
 //@@ end
 //@@ fn src/uint/cmp.rs | impl<const LIMBS: usize> ConstantTimeEq for Uint<LIMBS> | ct_eq | body | props C06 C11
 impl<const LIMBS: usize> ConstantTimeEq for Uint<LIMBS> {
 fn ct_eq(&self, other: &Self) -> (ret__: Choice)
+//@+
+    ensures ret__.wf(), ret__.t() == (self.v() == other.v())
+//@-
 {
         Uint::eq(self, other).into()
     }
